@@ -208,10 +208,17 @@ impl<'a> M<'a> {
         }
         // a second read of a template parameter, usually at another type (a parameter has one type)
         if self.hit(Kind::ParamTwoTypes) {
-            let name = if self.param_names.is_empty() { "FRESH_PARAM".to_string() } else { self.param_names[self.t.index(self.param_names.len())].clone() };
+            let fresh = self.param_names.is_empty();
+            let name = if fresh { "FRESH_PARAM".to_string() } else { self.param_names[self.t.index(self.param_names.len())].clone() };
             let (ty, _) = shadow_binding(self.t);
             let at = if stmts.is_empty() { 0 } else { self.t.index(stmts.len() + 1) };
-            stmts.insert(at, Stmt::Let(Pat::Ignore, ty, Expr::Param(name)));
+            stmts.insert(at, Stmt::Let(Pat::Ignore, ty, Expr::Param(name.clone())));
+            if fresh {
+                // a program without parameters gets two reads, usually at two types
+                let (ty2, _) = shadow_binding(self.t);
+                let at2 = self.t.index(stmts.len() + 1);
+                stmts.insert(at2, Stmt::Let(Pat::Ignore, ty2, Expr::Param(name)));
+            }
             return;
         }
         // shadowing across scopes: bind, in this block, a name that a nested block binds again
